@@ -145,6 +145,9 @@ def workload(tier, seed):
         yield "cli_seed", {"lo": lo, "hi": lo + (8 if tier == "quick" else 25)}
     yield "files", {}
     yield "text_headers", {}
+    named = [t for _, t in small()]
+    for lo in range(0, len(named), 60):
+        yield "text_varnames", {"tails": named[lo:lo + (4 if tier == "quick" else 60)], "rseed": seed + 4}
     sizes = (256, 4096, 8192, 65536) if tier == "quick" else [1 << k for k in range(8, 18)] + [3 << 12, 3 << 13, 3 << 15, 5 << 12, 65535, 65537]
     for N in sizes:
         yield "text", {"tails": [["and", str(N), "0"], ["and", str(N // 2), str(N - N // 2)]], "rseed": seed + 1}
@@ -230,6 +233,36 @@ def case_text(ctx, tails, rseed, quiet=True):
             continue
         ctx.judged(("text", tuple(tail), rseed), nontrivial=n > 0,
                    sample={"argv": tail, "variables": n, "clauses": len(clauses), "opb_rows": len(T.rows), "satisfying_samples": sum(va)})
+
+
+def case_text_varnames(ctx, tails, rseed):
+    """--varnames with and without the header (-q, -v): both programs list a name for every variable, and the same ones."""
+    import re
+    from ..cliharness import run_main
+    from ..refmodels import c12_opb
+    for tail in tails:
+        for flags in (["--varnames"], ["-q", "--varnames"], ["--varnames", "-q"], ["-v", "--varnames"]):
+            random.seed(rseed)
+            a = run_main("cnfgen", flags + list(tail))
+            random.seed(rseed)
+            b = run_main("pbgen", flags + list(tail))
+            ctx.count("varname_text_pairs")
+            label = "%s %s" % (" ".join(flags), " ".join(tail))
+            if a.exc is not None or b.exc is not None or a.rc != 0 or b.rc != 0:
+                if (a.rc, type(a.exc)) != (b.rc, type(b.exc)):
+                    ctx.violation("%s:one-tool-refuses" % tail[0], "%s: cnfgen -> rc=%r %r, pbgen -> rc=%r %r" % (label, a.rc, a.exc, b.rc, b.exc))
+                continue
+            na = {int(m.group(1)): m.group(2) for m in re.finditer(r"^c varname (\d+) (.*)$", a.out, re.M)}
+            T = c12_opb.read_opb(b.out)
+            if not T:
+                ctx.violation("%s:text:pbgen-output-unreadable" % tail[0], "%s: %r" % (label, T))
+                continue
+            nb = dict(T.varnames)
+            n = T.variables
+            if sorted(na) != list(range(1, n + 1)) or na != nb:
+                ctx.violation("%s:text:varnames" % tail[0], "%s: cnfgen lists %d names, pbgen %d, for %d variables; first difference %r"
+                              % (label, len(na), len(nb), n, next(((i, na.get(i), nb.get(i)) for i in range(1, n + 1) if na.get(i) != nb.get(i)), None)))
+            ctx.judged(("varnames", tuple(flags), tuple(tail)), nontrivial=n > 0, sample={"argv": flags + list(tail), "variables": n})
 
 
 def case_text_headers(ctx):
